@@ -42,6 +42,35 @@ Proof.
 Qed.
 Print Assumptions C30_core.
 
+(* Which errors the handlers can return, for every reachable state, every elapsed time and every
+   resolution of the map orders: nil — except that disconnect may return
+   ErrDisconnectReceivedForNonConnectedPeer, and removeReservedPeers / setReservedPeer may return
+   ErrPeerDoesNotExist (from removeNoSlotNode: updateTime forgets a reserved peer that was banned,
+   dropped and has decayed to 0, although it stays in reservedNode).  ErrPeerDisconnected,
+   ErrOutgoingSlotsUnavailable and ErrIncomingSlotsUnavailable never leave a handler. *)
+Theorem C30_error_classes : forall mi mo ro h s k o r,
+  (mi < 4294967296)%N -> (mo < 4294967296)%N ->
+  hist_wf (h ++ [(k, o)]) ->
+  reachable fixed (init_pset mi mo ro) h s ->
+  In r (step fixed s k o) ->
+  exists e s', r = Ret e s' /\ err_class_ok o e = true.
+Proof. exact step_errors. Qed.
+Print Assumptions C30_error_classes.
+
+(* non-vacuity: both non-nil classes occur.  a is reserved, banned and dropped, marked old; 3000
+   seconds later it has decayed to 0 and is forgotten; un-reserving it returns ErrPeerDoesNotExist.
+   Disconnecting a peer twice returns ErrDisconnectNonConnected. *)
+Example C30_error_classes_nonvacuous :
+  (exists s, first_outcomes fixed (init_pset 1 1 false)
+               [(0%N, OAddReserved [0%N]); (0%N, OReport (-2147483648) [0%N]); (0%N, OAge [0%N]); (3000%N, OIncoming [])] = Some s /\
+             exists s', In (Ret (Some ErrPeerDoesNotExist) s') (step fixed s 0 (ORemoveReserved [0%N]))) /\
+  (exists s', In (Ret (Some ErrDisconnectNonConnected) s') (step fixed (init_pset 1 1 false) 0 (ODisconnect false [0%N]))).
+Proof.
+  split.
+  - eexists. split; [vm_compute; reflexivity|]. eexists. vm_compute. left. reflexivity.
+  - eexists. vm_compute. left. reflexivity.
+Qed.
+
 (* the same facts as state invariants of every reachable state *)
 Theorem C30_invariant : forall mi mo ro h s,
   (mi < 4294967296)%N -> (mo < 4294967296)%N -> hist_wf h ->
